@@ -1,8 +1,7 @@
 (* Model/HsmsRx.v — sequential model of the HSMS receive path:
    Protocol._on_connection_data_received (append, trigger) and HsmsProtocol._process_received_data
-   (peek 4 length bytes, wait for the whole frame, pop, HsmsBlock.decode, queue for dispatch).
-   The receiver thread parks inside ByteQueue.wait_for while a frame is incomplete; that is the
-   [rx_blocked] flag.  A frame that does not decode raises inside the receiver callback: the frame is
+   (peek 4 length bytes, leave an incomplete frame in the buffer, pop, HsmsBlock.decode, queue for dispatch).
+   [rx_blocked]: the buffer starts with an incomplete frame (its length is known, the rest has not arrived).  A frame that does not decode raises inside the receiver callback: the frame is
    gone, the loop is abandoned until the trigger fires again. *)
 From SG Require Import Base.Prelude Base.Kinds Gen.ProtoConsts Model.Secs2 Model.Frames.
 Open Scope N_scope.
@@ -29,16 +28,11 @@ Fixpoint drain (fuel : nat) (buf : list N) : list N * bool * list rx_out * bool 
     end
   end.
 
-(* a segment arrives *)
+(* a segment arrives: appended, the receiver callback runs once *)
 Definition rx_feed (s : rx) (seg : list N) : rx * list rx_out :=
   let buf := rx_buf s ++ seg in
-  let '(b1, blk1, out1, ab1) := drain (S (length buf)) buf in
-  if rx_blocked s && ab1 then
-    (* the receiver was parked in wait_for and resumed by this segment; the trigger set by the
-       TCP thread makes it run the callback once more after the exception *)
-    let '(b2, blk2, out2, _) := drain (S (length b1)) b1 in
-    ({| rx_buf := b2; rx_blocked := blk2 |}, out1 ++ out2)
-  else ({| rx_buf := b1; rx_blocked := blk1 |}, out1).
+  let '(b1, blk1, out1, _) := drain (S (length buf)) buf in
+  ({| rx_buf := b1; rx_blocked := blk1 |}, out1).
 
 Fixpoint rx_run (s : rx) (segs : list (list N)) : rx * list rx_out :=
   match segs with
